@@ -536,6 +536,10 @@ func (r *c20Run) start(i int, e *c20Event) bool {
 		st.rejected++
 		after := c20Tracked(se, r.c.Names)
 		r.tr(map[string]interface{}{"ev": "failed", "c": e.C, "after": r.settingJSON(after)})
+		if e.Ev == "txfirst" && e.Txfail != "" && e.Txfail != "none" {
+			// getTransactionConn closes the connection: the pool slot reopens a new backend session
+			delete(r.slot, e.Conn)
+		}
 		if e.Outcome != "rejected" {
 			r.driftf("statement-failed-unexpectedly", "event %d: the specification runs the statement, the proxy answered: %v", i, failErr)
 			return false
